@@ -260,13 +260,18 @@ def parseCURIE (v : Str) : Option CURIE :=
     reg-name host, no userinfo, well-formed percent-escapes). It is `RFC3986Lite.resolve` except for the
     branch marked "[dpb] handle empty base with relative ref - don't force absolute path" of
     `ResolveReference`: with an empty base path, a relative-path reference whose dot-segment removal
-    leaves nothing yields an empty path instead of "/". -/
+    leaves nothing yields an empty path instead of "/"; and for the references "" and "#", which (as in
+    `net/url`) keep the fragment of the base (`if ref.u.Fragment == "" { url.Fragment = u.Fragment }`)
+    where §5.2.2 drops or empties it. -/
 def goResolve (b r : Str) : Str :=
   let B := RFC3986Lite.split b
   let R := RFC3986Lite.split r
   if R.scheme = none ∧ R.authority = none ∧ B.authority.isSome ∧ B.path = [] ∧ R.path ≠ [] ∧
      R.path.head? ≠ some cSlash ∧ RFC3986Lite.removeDotSegments (cSlash :: R.path) = [cSlash]
   then RFC3986Lite.recompose { scheme := B.scheme, authority := B.authority, path := [], query := R.query, fragment := R.fragment }
+  else if R.scheme = none ∧ R.authority = none ∧ R.path = [] ∧ R.query = none ∧
+     (R.fragment = none ∨ R.fragment = some []) ∧ B.fragment.isSome
+  then RFC3986Lite.recompose B
   else RFC3986Lite.resolve b r
 
 /-- Model of "`url.Parse(ref)` succeeds" on the same domain: the only rejection that remains there is
@@ -304,6 +309,11 @@ inductive Outcome where
   | some (r : Str)
 deriving DecidableEq, Repr
 
+/-- the last resort of `relativizeIRI`: `v[rb.rootIndex-1:]` -/
+def rootRelative (rootIndex : Nat) (v : Str) : Outcome :=
+  if rootIndex = 0 ∨ v.length < rootIndex - 1 then .panic
+  else .some (v.drop (rootIndex - 1))
+
 /-- the part of `relativizeIRI` after the `rb.original == v` test, for an absolute base -/
 def candidateAbs (rb : BaseIRI) (rootIndex directoryIndex : Nat) (v : Str) : Outcome :=
   let n := rb.original.length
@@ -328,9 +338,9 @@ def candidateAbs (rb : BaseIRI) (rootIndex directoryIndex : Nat) (v : Str) : Out
         let rel := v.drop directoryIndex
         if rel = [] ∨ rel.head? = some cQuest ∨ rel.head? = some cHash then .some ([cDot, cSlash] ++ rel) else .some rel
       else
-        (if rootIndex = 0 ∨ v.length < rootIndex - 1 then .panic else .some (v.drop (rootIndex - 1)))
+        rootRelative rootIndex v
     else
-      (if rootIndex = 0 ∨ v.length < rootIndex - 1 then .panic else .some (v.drop (rootIndex - 1)))
+      rootRelative rootIndex v
 
 /-- `(*BaseIRI).relativizeIRI`: the candidate reference -/
 def candidate (rb : BaseIRI) (v : Str) : Outcome :=
@@ -351,11 +361,13 @@ def candidate (rb : BaseIRI) (v : Str) : Outcome :=
       else if rb.original = v then .some []
       else candidateAbs rb rootIndex directoryIndex v
 
-/-- `(*BaseIRI).RelativizeIRI`: candidate, then (absolute base) verification by resolution -/
+/-- `(*BaseIRI).RelativizeIRI`: candidate; refused when it starts with "//" (it would name an
+    authority); then, for an absolute base, verification by resolution -/
 def relativizeB (rb : BaseIRI) (v : Str) : Outcome :=
   match candidate rb v with
   | .some rel =>
-    if rb.root.isSome then
+    if [cSlash, cSlash].isPrefixOf rel = true then .none
+    else if rb.root.isSome then
       (if goParseOK rel = true ∧ goResolve rb.original rel = v then .some rel else .none)
     else .some rel
   | o => o
